@@ -21,3 +21,11 @@ def degenerate_obligations(seed, tier):
                       "n_clusters in {1, n}, one-sample batches) complete with finite parameters, probabilities and scores",
                       PROVED if not fails and nfit > 0 else REFUTED, "native", "B", {"fits": nfit, "failing": fails[:3], "replayed": True}, fn=f"{name}.fit"))
     return obs
+
+
+def int_data_obligations(seed):
+    obs = []
+    for name, (ok, det) in R.int_data(seed).items():
+        obs.append(Ob(f"{name}: integer-typed data gives the same fitted model as its float copy", PROVED if ok else REFUTED, "native", "B",
+                      dict(det, replayed=not ok), fn=f"{name}.fit"))
+    return obs
